@@ -527,9 +527,14 @@ func c10Verify(c *fw.Ctx, g *scen.Git, r *rand.Rand, f1, f2 map[string]string, c
 		Files: []scen.RuleFile{{Name: "targets", Principals: []scen.Principal{keyPrincipal("k1")}, Signers: []string{"root"},
 			Rules: []scen.Rule{{Name: "protect-files", Patterns: []string{pattern}, Principals: []string{"P1"}, Threshold: 1}}}},
 	}
-	for _, signer := range []string{"kx", "k1"} {
+	// "kx+": the outsider's commit follows, inside the same log entry, a commit by the
+	// authorized key that changes the same protected path (every commit of an entry
+	// is judged on its own)
+	for _, variant := range []string{"kx", "k1", "kx+"} {
+		signer := strings.TrimSuffix(variant, "+")
+		multi := strings.HasSuffix(variant, "+")
 		c.Eval(1)
-		cs := c10CaseOf(f2, "verify:"+signer)
+		cs := c10CaseOf(f2, "verify:"+variant)
 		cs.Rule = hex.EncodeToString([]byte(pattern))
 		cs.Changed = hexAll(ch)
 		c.Nontrivial(fw.Hash(cs))
@@ -562,7 +567,30 @@ func c10Verify(c *fw.Ctx, g *scen.Git, r *rand.Rand, f1, f2 map[string]string, c
 				c.Inconclusive("record base")
 				return
 			}
-			c2, err := gg.CommitTree(t2, []githash.Hash{c1}, "change", keys.Get(signer))
+			parent := c1
+			if multi {
+				fM := map[string]string{}
+				for k, v := range f1 {
+					fM[k] = v
+				}
+				fM[target] = "changed by the authorized key first"
+				tM, eM := c10WriteTree(gg, fM)
+				if eM != nil {
+					c.Inconclusive("mktree")
+					return
+				}
+				cM, err := gg.CommitTree(tM, []githash.Hash{c1}, "authorized change", keys.Get("k1"))
+				if err != nil {
+					c.Inconclusive("commit-tree -S")
+					return
+				}
+				parent = cM
+			}
+			c2, err := gg.CommitTree(t2, []githash.Hash{parent}, "change", keys.Get(signer))
+			// commits of one entry are inspected in id order: let the outsider's commit come last
+			for try := 0; multi && err == nil && try < 12 && c2.String() < parent.String(); try++ {
+				c2, err = gg.CommitTree(t2, []githash.Hash{parent}, fmt.Sprintf("change %d", try), keys.Get(signer))
+			}
 			if err != nil {
 				c.Inconclusive("commit-tree -S")
 				return
@@ -580,7 +608,7 @@ func c10Verify(c *fw.Ctx, g *scen.Git, r *rand.Rand, f1, f2 map[string]string, c
 				case signer == "k1" && err != nil:
 					c.Violation("authorized-path-change-rejected", map[string]string{"pattern": c10PatternClass(pattern), "how": c10How([]string{target}, nil)}, fmt.Sprintf("commit by the authorized key changes %q protected by rule %q, verification fails: %v", target, pattern, err), cs)
 				default:
-					c.Count("verify_agree:"+signer, 1)
+					c.Count("verify_agree:"+variant, 1)
 				}
 			})
 		}()
